@@ -38,7 +38,7 @@ def tier_grid(tier):
 def lattice(n, d, shift=None, a=None):
     """Rank-1 Korobov lattice in (0,1)^d with an optional Cranley-Patterson shift."""
     if a is None:
-        a = korobov_generator(n)
+        a = korobov_generator(n, d)
     gen = np.array([pow(a, j, n) for j in range(d)], dtype=np.int64)[None, :]
     i = np.arange(n, dtype=np.int64)[:, None]
     P = ((i * gen) % n + 0.5) / n
@@ -51,28 +51,31 @@ def lattice(n, d, shift=None, a=None):
 _KOROBOV = {}
 
 
-def korobov_generator(n):
-    """Deterministic choice of a generator: the multiplier with the best 2-D/3-D spread (min L2 star-ish
-    proxy: maximise the minimum distance of the 2-D projection). Cached per n."""
-    if n in _KOROBOV:
-        return _KOROBOV[n]
-    best, best_a = -1.0, None
-    cands = [a for a in range(2, min(n, 400)) if math.gcd(a, n) == 1]
-    i = np.arange(n, dtype=np.int64)
+def korobov_generator(n, d=7):
+    """Deterministic choice of the Korobov multiplier: among the first 300 multipliers coprime to n, the one whose
+    d-dimensional point set has the smallest maximum absolute normal-score correlation between coordinates (so that a
+    table pushed through it has, as nearly as possible, exactly the designed dependence). Cached per n."""
+    d = max(2, min(int(d), 7))
+    if (n, d) in _KOROBOV:
+        return _KOROBOV[(n, d)]
+    from scipy.stats import norm
+    best, best_a = np.inf, None
+    cands = [a for a in range(2, n) if math.gcd(a, n) == 1][:300]
+    i = np.arange(n, dtype=np.int64)[:, None]
     for a in cands:
-        x = (i / n)
-        y = ((i * a) % n) / n
-        z = ((i * a * a) % n) / n
-        # minimum toroidal distance to the origin point of the lattice (lattice => same for all points)
-        dx = np.minimum(x[1:], 1 - x[1:])
-        dy = np.minimum(y[1:], 1 - y[1:])
-        dz = np.minimum(z[1:], 1 - z[1:])
-        m = min(np.min(dx * dx + dy * dy), np.min(dy * dy + dz * dz) if n > 3 else 1.0,
-                np.min(dx * dx + dz * dz) if n > 3 else 1.0)
-        if m > best:
+        gen = np.array([pow(a, j, n) for j in range(d)], dtype=np.int64)[None, :]
+        Z = norm.ppf(((i * gen) % n + 0.5) / n)
+        if n > 1:
+            Z = Z[1:] if n > 8 else Z
+        with np.errstate(all='ignore'):
+            C = np.corrcoef(Z, rowvar=False)
+        if not np.all(np.isfinite(C)):
+            continue
+        m = np.max(np.abs(C - np.eye(d)))
+        if m < best:
             best, best_a = m, a
-    _KOROBOV[n] = best_a
-    return best_a
+    _KOROBOV[(n, d)] = best_a if best_a is not None else 2
+    return _KOROBOV[(n, d)]
 
 
 def shift_from_seed(seed, d=8):
